@@ -258,6 +258,35 @@ def threading_thread(I, args, kwargs):
     return ThreadObj(kwargs.get("target"), kwargs.get("args"), kwargs.get("daemon", False))
 
 
+def fresh_abstract(I, type_name, **fields):
+    """a new object of an abstract library type (threading.Event(), asyncio.Event(), ...)"""
+    ctx = I.ctx
+    ty = I.E.shared_types[type_name]
+    o = ctx.alloc(None, ty)
+    ctx.store_raw(ctx.ref_id(o), "$cls", z3.IntVal(I.E.classes.cid("abs:" + ty.name)))
+    for f, v in fields.items():
+        ctx.store_raw(ctx.ref_id(o), f, ctx.to_val(v).t)
+    return o
+
+
+def threading_event(I, args, kwargs):
+    return fresh_abstract(I, "threading.Event", isset=False)
+
+
+def asyncio_event(I, args, kwargs):
+    return fresh_abstract(I, "asyncio.Event", isset=False)
+
+
+def asyncio_get_event_loop(I, args, kwargs):
+    """asyncio.get_event_loop() inside a running coroutine: the loop that runs it (one object per run)"""
+    ctx = I.ctx
+    ty = I.E.shared_types["asyncio.Loop"]
+    t = z3.Const("the_running_loop", Z.Val)
+    sv = ctx.typed(t, ty)
+    ctx.assume(Z.Val.id(t) < ctx.alloc0)
+    return sv
+
+
 def asyncio_current_task(I, args, kwargs):
     t = I.ctx.ghost.get("current_task")
     if t is None:
@@ -266,6 +295,7 @@ def asyncio_current_task(I, args, kwargs):
 
 
 def install(E):
-    E.externals.update({"threading.Thread": threading_thread, "asyncio.run_coroutine_threadsafe": run_coroutine_threadsafe, "trio.from_thread.run": trio_from_thread_run,
+    E.externals.update({"threading.Event": threading_event, "asyncio.Event": asyncio_event, "asyncio.get_event_loop": asyncio_get_event_loop,
+                        "threading.Thread": threading_thread, "asyncio.run_coroutine_threadsafe": run_coroutine_threadsafe, "trio.from_thread.run": trio_from_thread_run,
                         "asyncio.current_task": asyncio_current_task, "trio.sleep": trio_sleep, "str.__mod__": str_mod, "logging.getLogger": get_logger,
                         "asyncio.run": asyncio_run, "asyncio.shield": asyncio_shield, "asyncio.gather": asyncio_gather})
